@@ -175,6 +175,12 @@ class TypeTag:
     def __repr__(self):
         return 'Type<%s>' % self.name
 
+    def __eq__(self, other):
+        return isinstance(other, TypeTag) and other.name == self.name
+
+    def __hash__(self):
+        return hash(('TypeTag', self.name))
+
 
 class RangeV:
     def __init__(self, lo, hi, step=1):
